@@ -35,7 +35,7 @@ PROPS = {
         "exhaustive over the small-scope graph space named in the property, generated search beyond",
         "trusted: the reference interpreter in wf.go (never calls flyt)",
         T_PBT + "oracle = reference interpreter / model-based state machine",
-        [job("main", "^TestC03$", q=4, th=16, tth=3400)]),
+        [job("main", "^TestC03$", q=4, th=16, tth=3400), job("fuzz", "^$", fuzz="^FuzzC03$", fuzztime=60, tiers=("thorough",), tth=600)]),
     "C04": P("Errors transparent, flows fail-stop", "fault_enumeration",
         "rapid generates failure-free workflow scenarios (depth<=4); for each, EVERY event of its reference path (leaf visit x phase x attempt) is injected as the single failure in 4 error flavours (sentinel, %w-wrapped, pointer type, value type) plus 'all attempts fail'; "
         "plus random multi-failure scripts; non-trivial = the failure ends the run at depth>=1 or is absorbed by retry/fallback",
@@ -124,7 +124,7 @@ PROPS = {
         "model-based state-machine testing",
         "trusted: the reference map; value identity by pointer for reference kinds, NaN-aware equality",
         "model-based property testing (rapid, shrinking sequences) against a reference map",
-        [job("main", "^TestC14$", q=4, th=16)]),
+        [job("main", "^TestC14$", q=4, th=16), job("fuzz", "^$", fuzz="^FuzzC14$", fuzztime=60, tiers=("thorough",), tth=600)]),
     "C15": P("Typed accessors total/consistent/faithful", "exploration",
         "cases = value recipes built with reflect: a fixed hostile list (all 12 numeric source kinds x boundary values, NaN/Inf/-0, named types, typed nils, funcs, chans, maps, arrays, anonymous structs containing slices/maps, nested/typed slices, Rec) evaluated exhaustively x every accessor family x {Result, SharedStore}; rapid: random recipes of depth<=3; thorough adds native coverage-guided fuzzing of the recipe decoder; "
         "non-trivial = value is not one of the suite's plain table values (plain small int/float64, string, bool, nil)",
